@@ -65,3 +65,63 @@ package ingest
 //@   ensures forall(i, 0, len(other.Keys), c.Keys[i] == other.Keys[i])
 //@   ensures forall(i, 0, len(other.Values), c.Values[i] == other.Values[i])
 //@   ensures other.sorted == old(other.sorted) && len(other.Keys) == old(len(other.Keys))
+
+// ---- C16: overlayFeatures merges two ID-ordered iterators, the overlay shadowing the base
+// Representation invariant (vOvInv): before the first Next both inner iterators are
+// unstarted; afterwards overlayID / baseID are the current IDs of the inner iterators
+// whenever the corresponding OK flag is set, and the current base ID is never one the
+// filter (the upper layer) has.
+// Proved for every call from every state satisfying the invariant:
+//  * the invariant is preserved;
+//  * the merged ID (FeatureID()) strictly increases from call to call: increasing
+//    order, no duplicates;
+//  * a base ID that the filter has is never current: with the filter being the upper
+//    layer, a feature present in both layers is served from the upper one only.
+//@ func (*overlayFeatures).advanceBase
+//@   requires o != nil && o.base != nil && o.filter != nil && ref(o.base) != ref(o.overlay)
+//@   requires implies(o.baseOK && o.started, ghostf("fpos", o.base) >= 0 && o.baseID == b6.VerifFeatID(o.base, ghostf("fpos", o.base)))
+//@   requires implies(!o.started, ghostf("fpos", o.base) == -1)
+//@   modifies *o
+//@   loop 1 invariant old(o.baseOK) && o.baseOK && o.base != nil && o.filter != nil && o.started == old(o.started) && o.overlayOK == old(o.overlayOK) && o.overlayID == old(o.overlayID) && o.overlay == old(o.overlay) && o.base == old(o.base) && o.filter == old(o.filter)
+//@   loop 1 invariant ghostf("fpos", o.overlay) == old(ghostf("fpos", o.overlay)) && ghostf("fpos", o.base) >= old(ghostf("fpos", o.base))
+//@   loop 1 invariant implies(o.baseOK && ghostf("fpos", o.base) >= 0, o.baseID == b6.VerifFeatID(o.base, ghostf("fpos", o.base)))
+//@   loop 1 invariant implies(old(o.started) && o.baseOK && ghostf("fpos", o.base) > old(ghostf("fpos", o.base)), old(o.baseID).Less(o.baseID))
+//@   loop 1 invariant implies(ghostf("fpos", o.base) == old(ghostf("fpos", o.base)), o.baseOK == old(o.baseOK) && o.baseID == old(o.baseID))
+//@   loop 1 invariant forall(k, old(ghostf("fpos", o.base)) + 1, ghostf("fpos", o.base) + 1, o.filter.HasFeatureWithID(b6.VerifFeatID(o.base, k)))
+//@   ensures o.started == old(o.started) && o.overlayOK == old(o.overlayOK) && o.overlayID == old(o.overlayID) && o.overlay == old(o.overlay) && o.base == old(o.base) && o.filter == old(o.filter)
+//@   ensures ghostf("fpos", o.overlay) == old(ghostf("fpos", o.overlay))
+//@   ensures implies(!old(o.baseOK), !o.baseOK && o.baseID == old(o.baseID))
+//@   ensures implies(o.baseOK, ghostf("fpos", o.base) >= 0 && o.baseID == b6.VerifFeatID(o.base, ghostf("fpos", o.base)) && !o.filter.HasFeatureWithID(o.baseID))
+//@   ensures implies(o.baseOK && old(o.started), old(o.baseID).Less(o.baseID))
+//@   ensures implies(old(o.baseOK), ghostf("fpos", o.base) > old(ghostf("fpos", o.base))) && implies(!old(o.baseOK), ghostf("fpos", o.base) == old(ghostf("fpos", o.base)))
+//@   ensures forall(k, old(ghostf("fpos", o.base)) + 1, ghostf("fpos", o.base), o.filter.HasFeatureWithID(b6.VerifFeatID(o.base, k)))
+
+//@ func (*overlayFeatures).Next
+//@   requires o != nil && o.base != nil && o.overlay != nil && o.filter != nil && ref(o.base) != ref(o.overlay)
+//@   requires forall(i, int, o.filter.HasFeatureWithID(b6.VerifFeatID(o.overlay, i)))
+//@   requires implies(!o.started, ghostf("fpos", o.base) == -1 && ghostf("fpos", o.overlay) == -1 && o.baseOK && o.overlayOK)
+//@   requires implies(o.started && o.overlayOK, ghostf("fpos", o.overlay) >= 0 && o.overlayID == b6.VerifFeatID(o.overlay, ghostf("fpos", o.overlay)))
+//@   requires implies(o.started && o.baseOK, ghostf("fpos", o.base) >= 0 && o.baseID == b6.VerifFeatID(o.base, ghostf("fpos", o.base)) && !o.filter.HasFeatureWithID(o.baseID))
+//@   modifies *o
+//@   ensures o.started && o.base == old(o.base) && o.overlay == old(o.overlay) && o.filter == old(o.filter)
+//@   ensures implies(o.overlayOK, ghostf("fpos", o.overlay) >= 0 && o.overlayID == b6.VerifFeatID(o.overlay, ghostf("fpos", o.overlay)))
+//@   ensures implies(o.baseOK, ghostf("fpos", o.base) >= 0 && o.baseID == b6.VerifFeatID(o.base, ghostf("fpos", o.base)) && !o.filter.HasFeatureWithID(o.baseID))
+//@   ensures result == (o.overlayOK || o.baseOK)
+//@   ensures implies(o.overlayOK && o.baseOK, o.overlayID != o.baseID)
+//@   ensures implies(old(o.started) && result && (old(o.overlayOK) || old(o.baseOK)), old(o.FeatureID()).Less(o.FeatureID()))
+//@   ensures implies(old(o.started) && ghostf("fpos", o.overlay) != old(ghostf("fpos", o.overlay)), old(o.overlayOK) && ghostf("fpos", o.overlay) == old(ghostf("fpos", o.overlay)) + 1 && old(o.FeatureID()) == old(o.overlayID))
+//@   ensures implies(old(o.started) && ghostf("fpos", o.base) != old(ghostf("fpos", o.base)), old(o.baseOK) && ghostf("fpos", o.base) > old(ghostf("fpos", o.base)) && old(o.FeatureID()) == old(o.baseID))
+//@   ensures forall(k, old(ghostf("fpos", o.base)) + 1, ghostf("fpos", o.base), o.filter.HasFeatureWithID(b6.VerifFeatID(o.base, k)))
+//@   ensures implies(old(o.started) && !old(o.overlayOK), !o.overlayOK) && implies(old(o.started) && !old(o.baseOK), !o.baseOK)
+
+// The merged ID is the smaller of the two current IDs; the feature is served by the
+// iterator that holds it (never the base when the upper layer has that ID, see Next).
+//@ func (*overlayFeatures).FeatureID
+//@   requires o != nil
+//@   ensures implies(o.overlayOK && o.baseOK, result == ite(o.overlayID.Less(o.baseID), o.overlayID, o.baseID))
+//@   ensures implies(o.overlayOK && !o.baseOK, result == o.overlayID) && implies(!o.overlayOK, result == o.baseID)
+
+//@ func (*overlayFeatures).Feature
+//@   requires o != nil && o.base != nil && o.overlay != nil
+//@   ensures implies(o.overlayOK && (!o.baseOK || o.overlayID.Less(o.baseID)), ref(result) == b6.VerifFeatRef(o.overlay, ghostf("fpos", o.overlay)))
+//@   ensures implies(!o.overlayOK || (o.baseOK && !o.overlayID.Less(o.baseID)), ref(result) == b6.VerifFeatRef(o.base, ghostf("fpos", o.base)))
